@@ -143,9 +143,10 @@ def rule_vacant(E, R):
         i_push = order.index(muts[0]) if len(muts) == 1 else None
         i_ins = order.index(ins[0]) if ins else None
         for x in ins:
-            a0 = strip(x.node["args"][0])
+            v0 = S.resolve(x.node["args"][0], x.frame)
+            a0 = sem.peel(v0.node)
             inner = a0["args"][0] if a0.get("k") == "Call" and a0.get("args") else a0
-            ins_ok = bool(lens) and S.resolve(inner, x.frame).node is lens[0].node
+            ins_ok = bool(lens) and S.resolve(inner, v0.frame).node is lens[0].node
             ctor = last_seg(norm(a0.get("callee", ""))) if a0.get("k") == "Call" else None
             R.check(ins_ok and (kind is None or ctor == kind) and where_(x) == {"Vacant"}, rule, fn,
                     "the entry records the new element's index%s" % ((" as SchemeItem::" + kind) if kind else ""),
